@@ -210,9 +210,9 @@ class FunctionIndirectInteractionUtils(object):
 
         def rec(fis0: FunctionIndirectInteractions) -> None:
             # The FIS may form a DAG
-            if id(fis) in visited:
+            if id(fis0) in visited:
                 return
-            visited.add(id(fis))
+            visited.add(id(fis0))
             res.update((DDSPath(p) for p in fis0.indirect_deps if isinstance(p, str)))
             for fis1 in fis0.indirect_deps:
                 if isinstance(fis1, FunctionIndirectInteractions):
@@ -228,9 +228,9 @@ class FunctionIndirectInteractionUtils(object):
 
         def rec(fis0: FunctionIndirectInteractions) -> None:
             # The FIS may form a DAG
-            if id(fis) in visited:
+            if id(fis0) in visited:
                 return
-            visited.add(id(fis))
+            visited.add(id(fis0))
             if fis0.store_path is not None:
                 res.add(fis0.store_path)
             for fis1 in fis0.indirect_deps:
